@@ -15,11 +15,12 @@ Backends == {"orjson", "stdlib"}
 \* string classes (by the characters they contain) and number classes
 StrClasses == {"ascii", "empty", "lf", "cr", "nul", "ctl", "quote", "backslash", "nel", "ls", "ps", "bmp", "bmpEdge", "astral", "del"}
 NumClasses == {"zero", "neg", "i31", "i53", "i63max", "u63", "u64max", "i64min", "frac", "negzero", "big", "denormal"}
-Other == {"null", "true", "false", "emptyList", "emptyDict", "nonAsciiKey"}
+Other == {"null", "true", "false", "emptyList", "emptyDict", "nonAsciiKey", "deep"}      \* deep: nested beyond what the fast encoder takes
 Classes == StrClasses \cup NumClasses \cup Other
 
 \* integers fit 64 bits (signed or unsigned), strings are free of lone surrogates: orjson accepts everything
-OrjsonCan(cs) == TRUE
+\* except values nested deeper than its limit, which the library re-encodes with the standard encoder
+OrjsonCan(cs) == "deep" \notin cs
 EncPath(b, cs) == IF b = "orjson" THEN (IF OrjsonCan(cs) THEN "orjson" ELSE "fallback") ELSE "stdlib"
 
 \* classes of characters written as escapes (never raw) by an encoder path
